@@ -514,6 +514,11 @@ class ClusterView:
                 for sid in members[w]:
                     so = st["subs"].get(str(sid)) or {"vals": [], "notes": []}
                     cs.append((nsorted(so["vals"]), [nsorted(x) for x in so["notes"]]))
+                if st.get("stuck") and not paused and not (st.get("live") or {}).get(tag):
+                    # the watchdog's observation: the key is monitored, etcd is reachable, yet the watcher has no live
+                    # stream and nobody is setting one up (e.g. a reload that did not restart this key)
+                    th["ops"].append({"d": "nostream"})
+                    self.feats.add("watched_key_without_stream")
                 th["ops"].append({"d": "obs", "n": n, "lag": bool(paused), "rv": rv, "cs": cs,
                                   "nl": ws.get("listeners"), "want_nl": len(members[w]) + 1})
         for w, th in list(cur.items()):
@@ -553,6 +558,8 @@ class ClusterView:
                     ops.append("WJoinNotes %s" % cz(d["jn"]))
                 elif k == "leave":
                     ops.append("WLeave %d" % d["i"])
+                elif k == "nostream":
+                    ops.append("WNoStream")
                 elif k == "obs":
                     ops.append("WObs %d %s %s %s" % (d["n"], cbool(d["lag"]), pairs(d["rv"]),
                                                      clist(["(%s, %s)" % (zl(v), zll(n)) for v, n in d["cs"]])))
@@ -1911,7 +1918,7 @@ class C13(Property):
         if obs.get("panic"):
             return "the implementation panicked: %s" % obs["panic"][:300]
         return {
-            "cluster": "the real cluster on a fake etcd (watch streams closed / cancelled / compacted, failed Gets, reloads, listeners coming and going): at a quiescent point a subscriber's Values() is not the set of values registered in etcd under its key, or a view change was not notified / published",
+            "cluster": "the real cluster on a fake etcd (watch streams closed / cancelled / compacted, failed Gets, reloads over several watched keys, listeners coming and going): at a quiescent point a subscriber's Values() is not the set of values registered in etcd under its key, a view change was not notified / published, or a monitored key is left without a watch (no load / watch issued for it)",
             "container": "Values() of a container differs from the set of values of the keys registered by the OnAdd/OnDelete calls, or a call did not notify the listeners with the new view",
             "discov": "after a watch event / reload / join, a subscriber's Values() differs from the values of the registered keys, a stale value is shown, or a view change was not notified",
             "resolver": "the addresses given to cc.UpdateState are not the registered values (all of them when <= 32, else 32 of them)",
